@@ -29,7 +29,9 @@ def main():
     for sid in ids:
         d = os.path.join(VERIF, "seeded", sid)
         patch = os.path.join(d, "patch.diff")
-        prop = json.load(open(os.path.join(d, "meta.json"))).get("property", sid[:3])
+        meta = json.load(open(os.path.join(d, "meta.json")))
+        prop = meta.get("property", sid[:3])
+        neutral = meta.get("status") == "neutralised"     # a later /repo fix made the change behaviour-preserving: checks must stay silent
         ev = tempfile.mkdtemp(prefix="avra-seeded-ev-")
         res = {"seed": sid, "property": prop, "applied": False, "checks": {}}
         try:
@@ -54,7 +56,12 @@ def main():
         own = res["checks"].get(prop, {})
         res["caught_by_own_check"] = own.get("rc") == 1
         res["caught_by"] = sorted(p for p, c in res["checks"].items() if c["rc"] == 1)
+        if neutral:
+            res["neutralised"] = True
         json.dump(res, open(os.path.join(d, "result.json"), "w"), indent=1)
+        if neutral:
+            print("%s neutralised: %s (reports from %s)" % (sid, "silent, as it must be" if not res["caught_by"] else "FALSE ALARM", res["caught_by"]))
+            continue
         print("%s own=%s caught_by=%s  %s" % (sid, "CAUGHT" if res["caught_by_own_check"] else "missed", res["caught_by"], (own.get("reports") or [""])[0][:150]))
 
 
